@@ -124,4 +124,58 @@ def logi2phys (n : NodeAddr) (toNode sendType : Nat) : Nat × Nat × Bool :=
     else (toNode &&& ((n.mask <<< 3) ||| 7), 5, false)
   else (n.parent, n.parentPipe, false)
 
+/-- the six addresses `_begin` opens: `for i in range(6): open_rx_pipe(i, _pipe_address(n_addr, i))`
+    (the first `IndexError` aborts `_begin`) -/
+def beginPipes (cfg : AddrCfg) (nAddr : Nat) : PyM (List Bytes) :=
+  [0, 1, 2, 3, 4, 5].mapM fun i => pipeAddress cfg nAddr i
+
+/-- What the radio matches on after `open_rx_pipe(i, a_i)`, i = 0..5 (nRF24L01: RX_ADDR_P2..P5 hold
+    one byte — `open_rx_pipe` writes `address[0]` only — and take bytes 1..4 from RX_ADDR_P1). -/
+def hwListen : List Bytes → List Bytes
+  | p0 :: p1 :: rest => p0 :: p1 :: rest.map fun a => a.take 1 ++ p1.drop 1
+  | l => l
+
+/-- `_write_to_pipe`: `open_tx_pipe(self._pipe_address(to_node, to_pipe))` for the hop chosen by
+    `_logi_2_phys`; `none` = the frame is for this node itself (queued locally, nothing is sent) -/
+def txAddress (cfg : AddrCfg) (n : NodeAddr) (toNode sendType : Nat) : Option (PyM Bytes) :=
+  let (node, pipe, mc) := logi2phys n toNode sendType
+  if node = n.addr ∧ !mc then none else some (pipeAddress cfg node pipe)
+
+/-- upper clamp of an explicit `level` argument of `multicast()` (`min(4, max(level, 0))`) -/
+def MULTICAST_ARG_MAX : Nat := 4
+/-- upper clamp of the `multicast_level` setter (`min(4, max(lvl, 0))`) -/
+def MULTICAST_LEVEL_MAX : Nat := 4
+
+/-- `multicast_level = lvl` : the new `_net_lvl` -/
+def setMulticastLevel (lvl : Int) : Nat := min MULTICAST_LEVEL_MAX (max lvl 0).toNat
+
+/-- the address `multicast_level = lvl` re-opens pipe 0 with -/
+def multicastLevelAddr (cfg : AddrCfg) (lvl : Int) : PyM Bytes :=
+  pipeAddress cfg (lvl2addr (setMulticastLevel lvl)) 0
+
+/-- `multicast(…, level)`: `level = self._net_lvl if level is None else min(3, max(level, 0))` -/
+def multicastLevel (netLvl : Nat) (level : Option Int) : Nat :=
+  match level with
+  | none => netLvl
+  | some l => min MULTICAST_ARG_MAX (max l 0).toNat
+
+/-- `multicast()` → `_write(_lvl_2_addr(level), TX_MULTICAST)`: logical target and what is
+    transmitted to (see `txAddress`) -/
+def multicastTx (cfg : AddrCfg) (n : NodeAddr) (level : Option Int) : Nat × Option (PyM Bytes) :=
+  let target := lvl2addr (multicastLevel n.netLvl level)
+  (target, txAddress cfg n target TX_MULTICAST)
+
+/-- Closed-system composition of the nodes' own choices (no code of its own: each node on the way
+    applies the constants `_begin` derived from *its* address and `_logi_2_phys`; the originator
+    sends `TX_NORMAL`, every forwarder `TX_ROUTED`).  Returns the addresses visited; `none` = a
+    `_begin` loop diverged.  Stops after `fuel` hops. -/
+def routeModel : Nat → Nat → Nat → Nat → Option (List Nat)
+  | 0, a, _, _ => some [a]
+  | f + 1, a, d, st =>
+    if a = d then some [a]
+    else do
+      let n ← beginAddr a
+      let rest ← routeModel f (logi2phys n d st).1 d TX_ROUTED
+      pure (a :: rest)
+
 end Nrf.Net
